@@ -44,9 +44,9 @@ def run(ctx):
                              extra_pre=['vi == %d' % vi, 'a == %d' % a] + (['b %% 2 == %d' % ((a + 1) % 2)] if q else []),
                              bound='syntax / PEP 8 listing of text %d with a complete listing of text b after visited leaf 0..23' % a,
                              realised='text b, switch point, which listing'))
-    C.append(xh.Cond(H, 'interleaved_tokenizers', timeout=400 if q else 2400, path_timeout=60,
-                     extra_pre=['vi == 1', 'b == (a + 3) %% %d' % N, 's < 32', 'a % 3 == 0'] if q else ['vi == 1'],
-                     bound='two token generators advanced alternately under %s schedules' % ('32 5-bit' if q else 'all 256 8-bit'),
+    C.append(xh.Cond(H, 'interleaved_tokenizers', timeout=400 if q else 1500, path_timeout=60,
+                     extra_pre=['vi == 1', 'b == (a + 3) %% %d' % N, 's < 32', 'a % 3 == 0'] if q else ['vi == 1', 'b == (a + 3) %% %d' % N, 's < 64'],
+                     bound='two token generators advanced alternately under %s schedules' % ('32 5-bit' if q else '64 6-bit'),
                      realised='texts, schedule'))
     C.append(xh.Cond(H, 'loading', timeout=200, path_timeout=60, bound='for each of the 9 versions: the grammar loaded by version is built from that version\'s file, also when a grammar was loaded from an explicit path under the same version before / after',
                      realised='order, version'))
